@@ -401,6 +401,16 @@ def newBanker (st : St) (cx : Ctx) (bt : Nat) (rlm : Option Nat) : Except Fail (
 def readonlyBanker (st : St) : Nat × St :=
   st.addBanker { bt := 0, addr := none, path := [], src := .readonly }
 
+/-- X_bankerSendCoins, `case btOriginSend`: `spent := (*ctx.OriginSendSpent).Add(amt)` (panics on an
+    invalid sum), then `ctx.OriginSend.IsAllGTE(spent)`; returns the new running total.  Other
+    banker types leave the total alone. -/
+def originCheck (osend spent : Coins) (bt : Nat) (amt : Coins) : Except Fail Coins :=
+  if bt = 1 then
+    match coinsAdd spent amt with
+    | none => .error .originAdd
+    | some s => if isAllGTE osend s then .ok s else .error .originLimit
+  else .ok spent
+
 /-- `b.SendCoins(from, to, amt)` down to the bank keeper -/
 def bankerSend (env : Env) (st : St) (b : Option Nat) (src dst : Str) (amt : Coins) : Except Fail St :=
   match b with
@@ -413,11 +423,7 @@ def bankerSend (env : Env) (st : St) (b : Option Nat) (src dst : Str) (amt : Coi
       else if bi.addr.isNone || bi.addr != env.resolve src then .error .foreignFrom
       else do
         -- X_bankerSendCoins: the origin-send budget is checked before anything moves
-        let spent' ← (if bi.bt = 1 then
-            match coinsAdd st.spent amt with
-            | none => .error .originAdd
-            | some s => if !isAllGTE env.osend s then .error .originLimit else .ok s
-          else .ok st.spent : Except Fail Coins)
+        let spent' ← originCheck env.osend st.spent bi.bt amt
         -- SDKBanker.SendCoins: both addresses must parse
         match env.resolve src, env.resolve dst with
         | some s, some d =>
@@ -638,40 +644,50 @@ structure DepState where
   lockFail : Bool   -- a lockStorageDeposit error was recorded
   unknown : Bool    -- a diff for a realm that does not exist was recorded
 
-/-- one iteration of the sorted-realm loop; `.error` = the loop returns/panics at once. -/
+/-- `FlushParamsRealmAccum`: persist the realm's running byte total -/
+def flushMeta (accum : List (Str × Accum)) (path : Str) (ds : DepState) : DepState :=
+  match alGet accum path with
+  | some a => { ds with rmeta := alSet ds.rmeta path a.bytes }
+  | none => ds
+
+/-- lock the deposit for `diff > 0` new bytes of realm `path` -/
+def lockStep (w : World) (caller : Addr) (accum : List (Str × Accum)) (ds : DepState) (path : Str) (diff : Int)
+    (rm : RealmMeta) : DepState :=
+  let required := diff * w.price
+  if ds.depositAmt < required then { ds with short := true }
+  else
+    match sendUnrestricted ds.bank caller (.dep path) [⟨ugnot, required⟩] (.depositLock path) with
+    | .error _ => { ds with lockFail := true }
+    | .ok bank =>
+      let rm' : RealmMeta := ⟨rm.storage + diff, rm.deposit + required⟩
+      flushMeta accum path { ds with bank := bank, depositAmt := ds.depositAmt - required, realms := alSet ds.realms path rm' }
+
+/-- the proportional refund: everything when all storage is released, else deposit·released/storage -/
+def refundAmount (rm : RealmMeta) (released : Int) : Int :=
+  if rm.storage = released then rm.deposit else rm.deposit * released / rm.storage
+
+/-- release `released > 0` bytes of realm `path`: `.error` = the loop returns/panics at once -/
+def releaseStep (w : World) (caller : Addr) (accum : List (Str × Accum)) (ds : DepState) (path : Str) (released : Int)
+    (rm : RealmMeta) : Except Fail DepState :=
+  if rm.storage < released then .error .depositPanic
+  else if rm.deposit < refundAmount rm released then .error .depositPanic
+  else
+    match sendUnrestricted ds.bank (.dep path) (if w.restricted then Addr.col else caller)
+            [⟨ugnot, refundAmount rm released⟩] (.depositRefund path) with
+    | .error _ => .error .depositLock
+    | .ok bank =>
+      let rm' : RealmMeta := ⟨rm.storage - released, rm.deposit - refundAmount rm released⟩
+      .ok (flushMeta accum path { ds with bank := bank, realms := alSet ds.realms path rm' })
+
+/-- one iteration of the sorted-realm loop -/
 def depositStep (w : World) (caller : Addr) (accum : List (Str × Accum)) (ds : DepState) (p : Str × Int) :
     Except Fail DepState :=
-  let (path, diff) := p
-  if diff = 0 then .ok ds
-  else match alGet ds.realms path with
+  if p.2 = 0 then .ok ds
+  else match alGet ds.realms p.1 with
     | none => .ok { ds with unknown := true }
     | some rm =>
-      let flush (ds : DepState) : DepState :=
-        match alGet accum path with
-        | some a => { ds with rmeta := alSet ds.rmeta path a.bytes }
-        | none => ds
-      if 0 < diff then
-        let required := diff * w.price
-        if ds.depositAmt < required then .ok { ds with short := true }
-        else
-          match sendUnrestricted ds.bank caller (.dep path) [⟨ugnot, required⟩] (.depositLock path) with
-          | .error _ => .ok { ds with lockFail := true }
-          | .ok bank =>
-            .ok (flush { ds with bank := bank, depositAmt := ds.depositAmt - required,
-                                 realms := alSet ds.realms path ⟨rm.storage + diff, rm.deposit + required⟩ })
-      else
-        let released := -diff
-        if rm.storage < released then .error .depositPanic
-        else
-          let unlocked := if rm.storage = released then rm.deposit else rm.deposit * released / rm.storage
-          if rm.deposit < unlocked then .error .depositPanic
-          else
-            let receiver := if w.restricted then Addr.col else caller
-            match sendUnrestricted ds.bank (.dep path) receiver [⟨ugnot, unlocked⟩] (.depositRefund path) with
-            | .error _ => .error .depositLock
-            | .ok bank =>
-              .ok (flush { ds with bank := bank,
-                                   realms := alSet ds.realms path ⟨rm.storage - released, rm.deposit - unlocked⟩ })
+      if 0 < p.2 then .ok (lockStep w caller accum ds p.1 p.2 rm)
+      else releaseStep w caller accum ds p.1 (-p.2) rm
 
 def depositLoop (w : World) (caller : Addr) (accum : List (Str × Accum)) :
     List (Str × Int) → DepState → Except Fail DepState
@@ -680,8 +696,13 @@ def depositLoop (w : World) (caller : Addr) (accum : List (Str × Accum)) :
     let ds ← depositStep w caller accum ds p
     depositLoop w caller accum rest ds
 
+/-- the per-realm storage deltas of a message, in processing order (`ParamsRealmDiffs`; the
+    object-store deltas are zero for the interpreter realms, whose scripts persist nothing) -/
+def storageDiffs (st : St) : List (Str × Int) :=
+  sortPaths ((st.accum.filter (fun x => x.2.delta != 0)).map (fun x => (x.1, x.2.delta)))
+
 def processStorageDeposit (w : World) (caller : Addr) (maxDeposit : Int) (st : St) : Except Fail DepState := do
-  let diffs := sortPaths ((st.accum.filter (fun x => x.2.delta != 0)).map (fun x => (x.1, x.2.delta)))
+  let diffs := storageDiffs st
   let ds0 : DepState := { bank := st.bank, realms := w.realms, rmeta := st.rmeta,
                           depositAmt := if maxDeposit = 0 then w.defaultDeposit else maxDeposit,
                           short := false, lockFail := false, unknown := false }
@@ -705,6 +726,8 @@ structure Outcome where
   log : List Ev
   toks : List TokInfo
   bankers : List BankerInfo
+  /-- the per-realm storage deltas the deposit step processed -/
+  diffs : List (Str × Int)
 
 def fuel0 : Nat := 100000
 
@@ -724,7 +747,7 @@ def startState (ch : Chain) (w : World) : St :=
 def finish (w : World) (caller : Addr) (maxDeposit : Int) (st : St) : Except Fail Outcome := do
   let ds ← processStorageDeposit w caller maxDeposit st
   pure { world := { w with led := ds.bank.led, params := st.params, rmeta := ds.rmeta, realms := ds.realms },
-         log := ds.bank.log, toks := st.toks, bankers := st.bankers }
+         log := ds.bank.log, toks := st.toks, bankers := st.bankers, diffs := storageDiffs st }
 
 def step (ch : Chain) (w : World) : Msg → Except Fail Outcome
   | .call signer realm send maxDeposit prog =>
@@ -761,6 +784,6 @@ def step (ch : Chain) (w : World) : Msg → Except Fail Outcome
       | none => .error .badAddress
       | some d => do
         let bank ← sendCoins ⟨w.led, []⟩ (.user signer) d amt .bankSend
-        pure { world := { w with led := bank.led }, log := bank.log, toks := [], bankers := ch.persisted }
+        pure { world := { w with led := bank.led }, log := bank.log, toks := [], bankers := ch.persisted, diffs := [] }
 
 end GnoVerif.C08
